@@ -79,6 +79,14 @@ theorem no_client_field_is_asked_for_twice {env : Pl.Env} {fuel : Nat} {operatio
     {steps : List Pl.Step} (hns : Pl.noSpreadL sels = true) (h : Pl.planOperation env fuel operation sels = .ok steps) :
     Pl.asked steps ≤ Pl.cfcL sels := Pl.planOperation_no_field_twice hns h
 
+/-- **no step only carries plumbing**: every step other than the (empty) root step asks its service for at least one of
+    the client's fields — a hop is never made for nothing (`Pl.planOperation_no_empty_step`: every pending step is
+    anchored at its location by a client field whose service is chosen again when asked from that service) -/
+theorem every_step_fetches_something_the_client_asked_for {env : Pl.Env} {fuel : Nat} {operation : String}
+    {sels : List Pl.Sel} {steps : List Pl.Step} (hns : Pl.noSpreadL sels = true) (hu : Pl.unmarkedL sels = true)
+    (h : Pl.planOperation env fuel operation sels = .ok steps) : ∀ s ∈ steps, s.id ≠ 0 → 1 ≤ Pl.cfcL s.sel :=
+  Pl.planOperation_no_empty_step hns hu h
+
 /-- non-vacuity: `{ me { firstName lastName } }` with `lastName` elsewhere: three client fields, three asked for -/
 def exEnv2 : Pl.Env :=
   { routes := [("Query.me", ["A"]), ("User.firstName", ["A"]), ("User.lastName", ["B"]), ("User.id", ["A", "B"])],
